@@ -16,7 +16,38 @@ if _np is None:
     sys.modules['_realnumpy'] = _np
 
 __version__ = _np.__version__
-nomask = None
+
+
+class _NoMask(object):
+    """stand-in for numpy.ma.nomask (a numpy False scalar): falsy, copyable, usable as a mask value"""
+    shape = ()
+    ndim = 0
+    size = 1
+    dtype = None
+
+    def __bool__(self):
+        return False
+
+    def copy(self):
+        return self
+
+    def any(self):
+        return False
+
+    def all(self):
+        return False
+
+    def __or__(self, o):
+        return o
+
+    __ror__ = __or__
+
+    def __repr__(self):
+        return 'nomask'
+
+
+NOMASK = _NoMask()
+nomask = None       # internal representation of "no mask array"
 float64 = 'f'
 int64 = 'i'
 bool_ = 'b'
@@ -420,11 +451,13 @@ class MaskedArray(ndarray):
 
     @property
     def mask(self):
-        return self._mask if self._mask is not None else False
+        return self._mask if self._mask is not None else NOMASK
 
     @mask.setter
     def mask(self, m):
-        if m is None or m is False:
+        if isinstance(m, _np.bool_):
+            m = bool(m)
+        if m is None or m is False or m is NOMASK:
             if self._mask is not None:
                 for p in self._mask.idx.ravel().tolist():
                     self._mask.buf[p] = _F()
@@ -792,6 +825,10 @@ def stack(arrs, axis=0):
 
 def _boolop(f):
     def g(x, y):
+        if isinstance(x, (_NoMask, _np.bool_)):
+            x = bool(x)
+        if isinstance(y, (_NoMask, _np.bool_)):
+            y = bool(y)
         if not isinstance(x, ndarray) and not isinstance(y, ndarray):
             return f(z3.BoolVal(bool(x)), z3.BoolVal(bool(y)))
         if not isinstance(x, ndarray):
@@ -816,7 +853,7 @@ def logical_not(x):
 def broadcast_to(a, shape):
     shape = tuple(shape)
     if not isinstance(a, ndarray):
-        t, k = _scalar_term(bool(a) if isinstance(a, (bool, _np.bool_)) else a)
+        t, k = _scalar_term(bool(a) if isinstance(a, (bool, _np.bool_, _NoMask)) else a)
         return ndarray._new([t] * int(_np.prod(shape)), shape, k)
     return ndarray(a.buf, _np.broadcast_to(a.idx, shape), a.kind)
 
@@ -855,7 +892,7 @@ ma = types.ModuleType('numpy.ma')
 ma.MaskedArray = MaskedArray
 ma.masked_array = None
 ma.masked = masked
-ma.nomask = nomask
+ma.nomask = NOMASK
 
 
 def _is_masked(x):
@@ -884,6 +921,8 @@ def _ma_array(data, dtype=None, copy=False, mask=nomask, fill_value=None, **kw):
     else:
         d = array(data, dtype=dtype)
     m = own
+    if mask is NOMASK:
+        mask = None
     if mask is not nomask and mask is not None:
         if mask is False or mask is True or isinstance(mask, _np.bool_):
             mm = ndarray._new([z3.BoolVal(bool(mask))] * d.size, d.shape, 'b')
@@ -987,7 +1026,8 @@ ma.minimum = _ma_extreme(operator.lt)
 ma.maximum = _ma_extreme(operator.gt)
 ma.mean = _ma_mean
 ma.std = _ma_std
-ma.getmask = lambda a: a._mask if isinstance(a, MaskedArray) else None
+ma.getmask = lambda a: a.mask if isinstance(a, MaskedArray) else NOMASK
+ma.getmaskarray = lambda a: (ndarray._new(a.maskcells(), a.shape, 'b') if isinstance(a, MaskedArray) else ndarray._new([_F()] * a.size, a.shape, 'b'))
 ma.getdata = lambda a: a.data if isinstance(a, ndarray) else a
 
 
